@@ -107,11 +107,14 @@ def variants(algo, tier):
                 ("linesearch-svd", {"init": "svd", "linesearch": True}, 10 if q else 14),
                 ("linesearch-normalize", {"init": "random", "linesearch": True, "normalize_factors": True}, 10 if q else 14),
                 ("normalize", {"init": "random", "linesearch": False, "normalize_factors": True}, 3 if q else 6),
-                ("einsum-normalize", {"init": "random", "linesearch": False, "normalize_factors": True, "tenalg": "einsum"}, 3 if q else 5)]
+                ("einsum-normalize", {"init": "random", "linesearch": False, "normalize_factors": True, "tenalg": "einsum"}, 3 if q else 5),
+                ("nn-0-normalize", {"init": "random", "linesearch": False, "nn_modes": [0], "normalize_factors": True}, 4 if q else 6),
+                ("nn-02-normalize-linesearch", {"init": "random", "linesearch": True, "nn_modes": [0, 2], "normalize_factors": True}, 9 if q else 12)]
     elif algo == "tensor_ring_als":
         out += [("lstsq", {"ls_solve": "lstsq"}, 4 if q else 8), ("normal_eq", {"ls_solve": "normal_eq"}, 4 if q else 8)]
     elif algo == "cmtf":
-        out += [("svd", {"init": "svd"}, 4 if q else 8), ("random", {"init": "random"}, 4 if q else 8)]
+        out += [("svd", {"init": "svd"}, 4 if q else 8), ("random", {"init": "random"}, 4 if q else 8),
+                ("svd-normalize", {"init": "svd", "normalize_factors": True}, 4 if q else 6), ("random-normalize", {"init": "random", "normalize_factors": True}, 4 if q else 6)]
     elif algo in ("CPRegressor", "TuckerRegressor"):
         out += [("reg0.1", {"reg_W": 0.1}, 4 if q else 8), ("reg1", {"reg_W": 1.0}, 4 if q else 8), ("reg10", {"reg_W": 10.0}, 3 if q else 6)]
         if algo == "CPRegressor":  # tensor-valued responses: the output-mode factors have their own update branch
